@@ -154,7 +154,8 @@ def check_filler(ctx, rule, f, bufparam, group_count_names, label):
                  key_extra='group')
         return
     stores = [s for s in ast.walk(ast.Module(body=g.orelse, type_ignores=[])) if isinstance(s, ast.Assign)]
-    marker = lambda src: ('%s - 1' % cnt) in src or '[-1]' in src
+    # the last real item of the group: ordinal <count> - 1, or the last trace of the source (2D: `.trace[-1]`)
+    marker = lambda src: ('%s - 1' % cnt) in src or '.trace[-1]' in src
     flagged = set()
     changed = True
     while changed:
